@@ -46,7 +46,7 @@ DATETIMES_EXT = [_dt(DATES_EXT[0]), _dt(DATES_EXT[1], 23, 59, 59, 999999)]
 
 KINDS_BASIC = ["bool", "int", "float", "str", "date", "datetime"]
 KINDS_KEY = ["bool", "int", "float", "str", "lstr", "ustr", "date", "datetime", "obool"]
-NA_CAPABLE = {"onum", "omix", "float", "str", "lstr", "ustr", "date", "datetime", "obool", "obj", "ostr", "timedelta", "float32", "oint"}
+NA_CAPABLE = {"tstr", "onum", "omix", "float", "str", "lstr", "ustr", "date", "datetime", "obool", "obj", "ostr", "timedelta", "float32", "oint"}
 NA_PATTERNS = ["none", "none", "some", "some", "first", "last", "all"]
 
 def pool(rng, kind, hostile=0.25, tags=None):
@@ -73,7 +73,7 @@ def pool(rng, kind, hostile=0.25, tags=None):
             p += FLOAT_HOSTILE
             if tags is not None: tags.add("float_hostile")
         return p
-    if kind in ("str", "ustr", "ostr"):
+    if kind in ("str", "ustr", "ostr", "tstr"):
         p = list(STR_SHORT)
         if h:
             p += STR_UNI
@@ -182,6 +182,9 @@ def np_column(kind, values):
         return a.astype(np.float32) if kind == "float32" else a
     if kind in ("str", "lstr"):
         return np.array(["" if v is None else v for v in values], dtype=di.dtypes.string)
+    if kind == "tstr":
+        # variable-width strings created by NumPy itself (dtype "T": another StringDType instance than the library's own)
+        return np.array(["" if v is None else v for v in values], dtype=np.dtypes.StringDType())
     if kind == "ustr":
         vs = ["" if v is None else v for v in values]
         w = max([len(v) for v in vs] + [1])
@@ -220,7 +223,7 @@ def expected_cells(kind, values):
         elif kind in ("float", "float32", "float_be"):
             out.append(canon.canon_obj(float(np.float32(v)) if kind == "float32" else float(v)))
         else:
-            out.append(canon.canon_obj(v, string_na=kind in ("str", "lstr", "ustr")))
+            out.append(canon.canon_obj(v, string_na=kind in ("str", "lstr", "ustr", "tstr")))
     return out
 
 NROW_CLASSES = [0, 1, 2, "small", "small", "small", "mid"]
